@@ -38,7 +38,8 @@ func perms(xs []string) [][]string {
 // to any member (including itself) or to a missing name
 func scriptOptions(names []string) []string {
 	targets := append(append([]string{}, names...), "x.p")
-	opts := []string{"a b\n", "p(1)\nnosuch()\n", "p(1)\n"}
+	// (the nested one fails its check three calls deep: its error already carries a chain of three positions)
+	opts := []string{"a b\n", "p(1)\nnosuch()\n", "p(1)\n", "p(1)\n  x = [len(len(nosuch()))]\n"}
 	for _, t := range targets {
 		opts = append(opts, fmt.Sprintf("p(1)\nuse(%q)\n", t))
 		for _, u := range targets {
